@@ -534,7 +534,7 @@ func muxCheckOutcome(k *kernel.Kernel, op *muxOp, err error, got string) {
 		if op.otherVersion && strings.Contains(err.Error(), "unexpected protocol version in response") {
 			return
 		}
-		if op.unbuildable && strings.Contains(err.Error(), "named query values are not supported in batches") {
+		if op.unbuildable && (strings.Contains(err.Error(), "named query values are not supported in batches") || strings.Contains(err.Error(), "named values are not supported by protocol versions below 3")) {
 			return
 		}
 		k.Violate("C06", "C06/unexpected-outcome", "request %s ended with an outcome outside the documented set: %v", op.token, err)
